@@ -109,7 +109,7 @@ fn build(c: &Case, values: &[Vec<u8>]) -> std::io::Result<Vec<u8>> {
     let proto = bld::protocol_of(c.proto);
     let fam = family_of(enc::family_code(&c.addr));
     let addr = imp::mk_addr2(&c.addr);
-    match c.route % 7 {
+    match c.route % 10 {
         0 => {
             // with_addresses + write_tlv
             let mut b = Builder::with_addresses(Version::Two | cmd, proto, addr);
@@ -156,6 +156,41 @@ fn build(c: &Case, values: &[Vec<u8>]) -> std::io::Result<Vec<u8>> {
                 })
                 .collect();
             Builder::new(Version::Two | cmd, proto | fam).write_payload(&addr)?.write_payloads(items)?.build()
+        }
+        7 | 8 => {
+            // a batch through an iterator that cannot tell how many items it holds (lower size hint 0): a filter, or the
+            // TLVs of a header that has just been received, forwarded item by item
+            let items: Vec<TypeLengthValue> = c
+                .tlvs
+                .iter()
+                .zip(values)
+                .map(|(t, v)| match t.named {
+                    Some(i) => TypeLengthValue::new(TYPES[i], v),
+                    None => TypeLengthValue::new(t.kind, v),
+                })
+                .collect();
+            if c.route % 10 == 8 && enc::family_code(&c.addr) != 0 {
+                let first = Builder::with_addresses(Version::Two | cmd, proto, addr).write_payloads(items)?.build()?;
+                let received = match ppp::v2::Header::try_from(first.as_slice()) {
+                    Ok(h) => h,
+                    Err(_) => return Ok(first), // judged below: the built header must parse
+                };
+                Builder::with_addresses(received.version | received.command, received.protocol, received.addresses).write_payloads(received.tlvs().filter_map(Result::ok))?.build()
+            } else {
+                Builder::with_addresses(Version::Two | cmd, proto, addr).write_payloads(items.into_iter().filter(|_| true))?.build()
+            }
+        }
+        9 => {
+            // capacity hinted before every single TLV (its own size), after the first write as well
+            let mut b = Builder::with_addresses(Version::Two | cmd, proto, addr);
+            for (t, v) in c.tlvs.iter().zip(values) {
+                b = b.reserve_capacity(3 + v.len());
+                b = match t.named {
+                    Some(i) => b.write_tlv(TYPES[i], v)?,
+                    None => b.write_tlv(t.kind, v)?,
+                };
+            }
+            b.reserve_capacity(0).build()
         }
         5 => {
             // nothing but one batch after with_addresses
@@ -226,7 +261,7 @@ pub fn judge(c: &Case, st: &mut Stats) -> Verdict {
     if c.tlvs.iter().any(|t| t.named.is_some()) {
         st.class("named-type");
     }
-    st.class(&format!("route{}", c.route % 7));
+    st.class(&format!("route{}", c.route % 10));
     st.sample(&cls, || imp::short(&c.to_json().to_string()));
     let fail = |kind: &str, exp: String, obs: String| Err(Fail::new(kind, shape(c), entry, exp, obs));
     let built = match crate::engine::guard(|| build(c, &values)) {
@@ -374,12 +409,12 @@ pub fn gen_case(t: &mut Tape) -> Case {
         room -= 3 + len;
         tlvs.push(Tlv { named, kind: t.byte(), len, seed: crate::engine::gen_seed(t) });
     }
-    Case { cmd: t.below(2) as u8, proto: t.below(3) as u8, addr, tlvs, route: t.below(7) as u8 }
+    Case { cmd: t.below(2) as u8, proto: t.below(3) as u8, addr, tlvs, route: t.below(10) as u8 }
 }
 
 pub fn run(r: &mut Runner) -> &'static str {
     r.rule = "inputs: command x transport x address block of each family (random + special values) x TLV list (raw kind bytes and every named Type; value lengths 0..4, ..60, 255-257, 1000, 4096, 30000, \
-              up to the room left; 1 in 40 lists fills the payload to exactly 65535) x 7 public build routes (with_addresses+write_tlv, new+BitOr control bytes+TLV structs, tuples, batch of structs, \
+              up to the room left; 1 in 40 lists fills the payload to exactly 65535) x 10 public build routes (batches through a filter, TLVs forwarded from a freshly parsed header, a capacity hint before every TLV, with_addresses+write_tlv, new+BitOr control bytes+TLV structs, tuples, batch of structs, \
               batch of tuples with explicit length, with_addresses + one batch only, new + two batches). oracle: reference encoder R-ENC byte for byte (registered type codes as literals), then parse-back: same command, transport, addresses, bytes and, \
               for a specified family, the same TLV sequence. non-trivial = at least one TLV or a specified family; distinct by SipHash Added later: grid of 22 type bytes x every value length x 5 content classes, the parsed TLV sequence also read with next()+nth(1) and skip(k)."
         .into();
@@ -411,7 +446,7 @@ pub fn run(r: &mut Runner) -> &'static str {
                     if idx % 3 == 0 {
                         tlvs.insert(0, Tlv { named: None, kind: 0x04, len: idx % 5, seed: 1 });
                     }
-                    let c = Case { cmd: (idx % 2) as u8, proto: (idx % 3) as u8, addr: addrs[(idx / 7) % 4].clone(), tlvs, route: (idx % 7) as u8 };
+                    let c = Case { cmd: (idx % 2) as u8, proto: (idx % 3) as u8, addr: addrs[(idx / 60) % 4].clone(), tlvs, route: ((idx / 6) % 10) as u8 };
                     if let Err(f) = judge(&c, st) {
                         return Some((c, f));
                     }
